@@ -128,3 +128,12 @@ Proof.
       rewrite firstn_app. replace (k - length init) with 0 by lia. cbn [firstn]. rewrite app_nil_r.
       apply (dirchain_firstn _ _ _ Hd). lia.
 Qed.
+
+(* an output directory named through a symbolic link: /l -> o *)
+Definition ex_l : name := [x6c].
+Definition ex_fs2 : fsmap := ([ex_l], NLink ex_o) :: ex_fs.
+Example ex_outdir_through_link :
+  eval_symlinks_str ex_fs2 [] [x2f; x6c] = Some (mknp true 0 [ex_o]) /\
+  kwalk max_symlinks ex_fs2 true [] (split_slash [x2f; x6c]) = KOk [ex_o] (Some NDir) /\
+  look (fst (extract_cmd true ex_fs2 [] [x2f; x6c] [] ex_benign)) [ex_o; ex_a] = Some (NFile [x50]).
+Proof. vm_compute. repeat split; reflexivity. Qed.
